@@ -171,17 +171,17 @@ def analytic(t):
     if t.get('order'):
         parts.append('order by ' + ', '.join('%s %s' % (name(o), d) for o, d in t['order']))
     if t.get('frame'):
-        kind, lo, hi = t['frame']
-        parts.append('%s between %s and %s' % ('data points' if kind == 'rows' else 'range', bound(lo), bound(hi)))
+        f = t['frame'][0]
+        parts.append('%s between %s and %s' % ('data points' if f['kind'] == 'rows' else 'range', bound(f['lo']), bound(f['hi'])))
     params = ''.join(', ' + const(p) for p in t.get('params', []))
-    return '%s(%s%s over (%s))' % (t['op'], expr(t['x']), params, ' '.join(parts))
+    x = '' if t['x'].get('k') == 'none' else expr(t['x'])
+    return '%s(%s%s%sover (%s))' % (t['op'], x, params, ' ' if x else '', ' '.join(parts))
 
 
 def bound(b):
-    if b == 'current':
+    if b['d'] == 'current':
         return 'current data point'
-    n, d = b
-    return ('unbounded ' if n == 'unbounded' else '%d ' % n) + d
+    return ('unbounded ' if b['n'] == -1 else '%d ' % b['n']) + b['d']
 
 
 def script(stmts):
